@@ -154,7 +154,7 @@ def wrappers(ctx, rule):
     b = ctx.body(RB + "parse_indexed_from_slice")
     lit = [q.shape(b.expr_of_rvalue(s["rv"])) for bi, si, s, it in b.locations() if not it and s["k"] == "assign" and s["rv"]["k"] == "agg" and s["rv"].get("adt", "").endswith("RamBundle")]
     ctx.check(lit == ["RamBundle{repr:RamBundleImpl::Indexed{0:try(IndexedRamBundle::parse(Cow::Borrowed{0:arg1}))}}"], rule, b.path, "parse", "parse_indexed_from_slice parses the given bytes as an indexed bundle (errors propagated)", detail=str(lit))
-    for fn, want in (("get_module", "IndexedRamBundle::get_module(indexed(arg1.repr),arg2)"), ("module_count", "IndexedRamBundle::module_count(indexed(arg1.repr))"), ("startup_code", "IndexedRamBundle::startup_code(indexed(arg1.repr))")):
+    for fn, want in (("get_module", "IndexedRamBundle::get_module(indexed(arg1.repr),arg2)"), ("module_count", "indexed(arg1.repr).module_count"), ("startup_code", "IndexedRamBundle::startup_code(indexed(arg1.repr))")):
         w = ctx.body(RB + fn)
         calls = [(bi, q.shape(w.expr_of_call(t))) for bi, t in w.calls()]
         hit = [bi for bi, c in calls if c == want]
